@@ -55,3 +55,20 @@ package fs
 //@   ensures wf3k3y(iso)
 //@   ensures err == nil ==> pos == fpos[iso.privateFile] && pos >= 0
 //@   ensures err != nil ==> fpos[iso.privateFile] == old(fpos[iso.privateFile])
+
+//@ pred encWatermark(c []int) := bytesEq(c, 0xF70, "Dncrypted 3K BLD")
+//@ pred decWatermark(c []int) := bytesEq(c, 0xF70, "Encrypted 3K BLD")
+
+// A file of exactly 0x1070 bytes is outside @enc/@dec: io.ReaderAt may report io.EOF together with a
+// full read that ends at the end of the file, which the function treats as "too short".
+//@ func Test3k3yImage results(key, err)
+//@   tags C04,C11
+//@   requires f != nil
+//@   modifies iofaults
+//@   ensures iofaults >= old(iofaults)
+//@   ensures[C11] err == nil ==> (len(key) == 16 && encWatermark(fcontent[f])) || (len(key) == 0 && decWatermark(fcontent[f])) @decision
+//@   ensures[C11] err == nil && len(key) == 16 ==> forall q :: 0 <= q && q < 16 ==> key[q] == fcontent[f][0xF80 + q] @embedded-key
+//@   ensures[C11] iofaults == old(iofaults) && fsize[f] > 0x1070 && encWatermark(fcontent[f]) ==> err == nil && len(key) == 16 @enc
+//@   ensures[C11] iofaults == old(iofaults) && fsize[f] > 0x1070 && decWatermark(fcontent[f]) ==> err == nil && len(key) == 0 @dec
+//@   ensures[C11] iofaults == old(iofaults) && (fsize[f] < 0x1070 || (!encWatermark(fcontent[f]) && !decWatermark(fcontent[f]))) ==> err == ErrNot3k3y @neither
+//@   ensures[C13] fopen == old(fopen) && fpos == old(fpos)
